@@ -150,7 +150,7 @@ static AIToolbox::Matrix2D runPIUnguarded(const Mod & mod, const char * rep, con
 // PolicyIteration has no iteration bound.  On inputs where it may not return (see fixes/C01-3) the call runs in a forked child with a
 // wall-clock limit, so that non-termination becomes a protocol line (`| timeout`, a failing input) instead of a killed harness.
 template <class Mod>
-static bool runPIGuarded(const Mod & mod, const char * rep, const Gen & G, unsigned h, double tol, int limitMs, AIToolbox::Matrix2D & out) {
+static bool runPIGuarded(const Mod & mod, const char * rep, const Gen & G, unsigned h, double tol, int limitMs, AIToolbox::Matrix2D & out, M::PolicyIteration * obj = nullptr) {
     int fd[2]; if (pipe(fd) != 0) { out = runPIUnguarded(mod, rep, G, h, tol); return true; }
     std::fflush(stdout);
     const pid_t pid = fork();
@@ -158,8 +158,8 @@ static bool runPIGuarded(const Mod & mod, const char * rep, const Gen & G, unsig
     const size_t n = G.S * G.A;
     if (pid == 0) {
         close(fd[0]);
-        M::PolicyIteration pi(h, tol);
-        auto q = pi(mod);
+        M::PolicyIteration fresh(h, tol);
+        auto q = obj ? (*obj)(mod) : fresh(mod);          // `obj`: an existing solver object whose setters were used by the caller
         std::vector<double> buf(n);
         for (size_t s = 0; s < G.S; ++s) for (size_t a = 0; a < G.A; ++a) buf[s * G.A + a] = q(s, a);
         ssize_t w = write(fd[1], buf.data(), n * sizeof(double)); (void)w;
@@ -429,7 +429,19 @@ static void runReuse(Rng & rng, const Mod & mod, const char * rep, const Gen & G
     auto o4 = pe(policy); emitPE(hp, &bad, o4);
     bool threwPE = false; try { pe.setTolerance(-0.5); } catch (const std::exception &) { threwPE = true; }
     { Line l; l << "C01" << "settol" << "PolicyEvaluation" << threwPE << pe.getTolerance() << 0.0; l.emit(); }
-    std::printf("#stat reuse_pe_calls 4\n");
+    std::printf("#stat reuse_pe_calls 5\n");
+    // PolicyIteration object: constructed with other parameters, then set; a rejected setter in between
+    {
+        M::PolicyIteration pi(3, 0.5);
+        pi.setHorizon(100000); pi.setTolerance(1e-3);
+        bool threwPI = false; try { pi.setTolerance(-2.0); } catch (const std::exception &) { threwPI = true; }
+        { Line l; l << "C01" << "settol" << "PolicyIteration" << threwPI << pi.getTolerance() << 1e-3; l.emit(); }
+        AIToolbox::Matrix2D q;
+        runPIGuarded(mod, rep, G, pi.getHorizon(), pi.getTolerance(), 10000, q, &pi);
+        pi.setTolerance(1e-2);
+        runPIGuarded(mod, rep, G, 100000u, 1e-2, 10000, q, &pi);
+        std::printf("#stat reuse_pi_calls 2\n");
+    }
 }
 
 // ---- (7) QGreedyPolicy::getPolicy on structured Q rows (what PolicyIteration's stop test and evaluations consume) -------------
